@@ -5,7 +5,7 @@ import ast
 
 from vlib import truthy
 from vlib.cfg import CFG
-from vlib.core import AnalysisError, Repo, Report, norm, own_nodes
+from vlib.core import AnalysisError, Repo, Report, canon, norm, own_nodes
 
 EXPLANATION = (
     "(a) multiplicity: in the evaluator modules a solution stream (result of evalPart/eval*/_join/_minus/...) is never "
@@ -80,7 +80,17 @@ def run(repo: Repo, rep: Report) -> None:
                             st = p
                             break
                     if n.func.id in SET_CTORS or n.func.id == "dict":
-                        why = SET_OK.get((q, norm(st)))
+                        why = {(x, canon(y)): r for (x, y), r in SET_OK.items()}.get((q, canon(st)))
+                        # structural form of the table row: the set is bound to a name whose only use is as the
+                        # re-iterated (second) operand of _minus(), which only asks `all(...)` over it
+                        if why is None and isinstance(st, ast.Assign) and len(st.targets) == 1 and isinstance(st.targets[0], ast.Name) and st.value is n:
+                            nm = st.targets[0].id
+                            uses = [u for u in own_nodes(f, include_nested=True) if isinstance(u, ast.Name) and u.id == nm and isinstance(u.ctx, ast.Load)]
+                            def _is_minus_operand(u):
+                                par_ = mod.parent.get(id(u))
+                                return isinstance(par_, ast.Call) and norm(par_.func) == "_minus" and len(par_.args) == 2 and par_.args[1] is u
+                            if uses and all(_is_minus_operand(u) for u in uses):
+                                why = "only used as the right operand of _minus(): an existence test (all(...) over it), multiplicity-insensitive"
                         rep.ob("C04.a-multiplicity-preserved", mod, q, st, why is not None,
                                "multiplicity-insensitive (table): " + why if why else
                                "%s(...) over a solution stream drops duplicate solutions: the multiset the algebra defines is not preserved" % n.func.id, node=n)
